@@ -534,6 +534,9 @@ func (e *Engine) verifyFunctionOnce(ct *Contract, prop string, tier string) *fnR
 					g := env.term(cl.Node)
 					env.pol = 0
 					o := getObl(cl.Name, "ensures", cl.Src, cl.Props, cl.Line)
+					if dbg := os.Getenv("ROSVC_DEBUGOBL"); dbg != "" && strings.Contains(cl.Name, dbg) {
+						fmt.Fprintf(os.Stderr, "DEBUG %s path %d (%s) goal: %s err=%v\n", cl.Name, pi, ex.kind, truncate(g.S, 700), env.err)
+					}
 					if cl.Only != "" {
 						o.Bounded = "input shape " + cl.Only + " (" + variantDesc(variant) + ")"
 					}
